@@ -595,6 +595,6 @@ def check_deep(data: dict, lab: Labels) -> None:
             n.detach_self()
 
 
-PARTS = [Part("programs", check_program, strategy=st_program, quick=3200, thorough=96000),
+PARTS = [Part("programs", check_program, strategy=st_program, quick=6400, thorough=160000),
          Part("deep", check_deep, enumerate=enum_deep,
               exhaustive_note="4 chain shapes x depth 2x (thorough: and 4x) the recursion limit")]
